@@ -39,13 +39,19 @@ pub fn quote_maybe(rng: &mut Rng, w: &str) -> String {
     }
 }
 
+/// octal or single-clause symbolic permission (multi-clause lists are C08's subject)
+pub fn rand_perm1(rng: &mut Rng) -> String {
+    let p = rand_perm(rng);
+    match p.find(',') { Some(i) => p[..i].to_string(), None => p }
+}
+
 pub fn rand_perm(rng: &mut Rng) -> String {
     let pre = ["", "-", "/"][rng.below(3)];
-    if rng.chance(1, 2) {
+    if rng.chance(1, 3) {
         let v = rng.below(4096);
         if rng.chance(1, 2) { format!("{}{:03o}", pre, v) } else { format!("{}{:04o}", pre, v) }
     } else {
-        let n = 1 + rng.below(3);
+        let n = 1 + rng.below(4);
         let mut cl = vec![];
         for _ in 0..n {
             let who: String = (0..1 + rng.below(2)).map(|_| ['u', 'g', 'o', 'a'][rng.below(4)]).collect();
@@ -91,12 +97,25 @@ pub fn rand_primary(rng: &mut Rng) -> String {
             let ts: Vec<&str> = (0..n).map(|_| ["b", "c", "d", "p", "f", "l", "s"][rng.below(7)]).collect();
             format!("-type {}", ts.join(","))
         }
-        10 => { let p = rand_perm(rng); format!("-perm {}", quote_maybe(rng, &p)) }
+        10 => { let p = rand_perm1(rng); format!("-perm {}", quote_maybe(rng, &p)) }
         _ => match rng.below(3) {
             0 => format!("-printf '{}'", rand_format(rng)),
             1 => format!("-fprintf {} \"{}\"", rand_word(rng), rand_format(rng)),
             _ => format!("-xattr-match {} {}", rand_word(rng), rand_word(rng)),
         },
+    }
+}
+
+/// a numeric primary with a random (often boundary) number
+pub fn rand_numeric_primary(rng: &mut Rng) -> String {
+    const C32: &[&str] = &["-uid", "-gid", "-inum", "-mirror-count", "-stripe-count"];
+    const TIMES: &[&str] = &["-amin", "-atime", "-cmin", "-ctime", "-mmin", "-mtime"];
+    match rng.below(5) {
+        0 => format!("{} {}", C32[rng.below(C32.len())], rand_cmp(rng)),
+        1 => format!("-links {}", rand_cmp(rng)),
+        2 => format!("{} {}{}", TIMES[rng.below(TIMES.len())], rand_cmp(rng), ["", "s", "m", "h", "d"][rng.below(5)]),
+        3 => format!("-size {}{}", rand_cmp(rng), ["", "b", "c", "w", "k", "M", "G", "T"][rng.below(8)]),
+        _ => format!("-threads {}", rand_number(rng)),
     }
 }
 
